@@ -30,14 +30,14 @@ ASSUMPTIONS = [
 OPTIMIZERS = ["default", "default", "multi", "multi", "multi", "always-never", "always-never", "simple", "fuse-all", "fuse-only"]
 
 
-def case_strategy(opts=None, max_ops=6):
+def case_strategy(opts=None, max_ops=6, min_ops=2):
     from hypothesis import strategies as st
 
     @st.composite
     def cases(draw):
-        prog = draw(P.programs(draw(st.sampled_from(["fusion-rich", "fusion-rich", "dag"])), max_ops=max_ops, min_ops=2, opts=opts))
+        prog = draw(P.programs(draw(st.sampled_from(["fusion-rich", "fusion-rich", "dag"])), max_ops=max_ops, min_ops=min_ops, opts=opts))
         n = P.node_count(prog)
-        opt = draw(st.sampled_from(OPTIMIZERS))
+        opt = draw(st.sampled_from((opts or {}).get("optimizers") or OPTIMIZERS))
         o = {"name": opt}
         if opt == "multi":
             o["msa"] = draw(st.integers(1, 8))
@@ -267,9 +267,11 @@ def check_case(case) -> Outcome:
 def shards(tier):
     if tier == "quick":
         return [{"kind": "program", "name": f"s{i}", "n": 90, "rotate": 7 + i * 43} for i in range(7)] + [
-            {"kind": "program", "name": f"store-mid{i}", "n": 90, "rotate": 19 + i * 37, "store_mid": 4} for i in range(2)]
+            {"kind": "program", "name": f"store-mid{i}", "n": 90, "rotate": 19 + i * 37, "store_mid": 4} for i in range(2)] + [
+            {"kind": "program", "name": f"chains{i}", "n": 90, "rotate": 5 + i * 53, "chains": True, "min_ops": 3} for i in range(2)]
     return [{"kind": "program", "name": f"s{i}", "n": 1500, "rotate": 7 + i * 43} for i in range(16)] + [
-        {"kind": "program", "name": f"store-mid{i}", "n": 1500, "rotate": 19 + i * 37, "store_mid": 4} for i in range(4)]
+        {"kind": "program", "name": f"store-mid{i}", "n": 1500, "rotate": 19 + i * 37, "store_mid": 4} for i in range(4)] + [
+        {"kind": "program", "name": f"chains{i}", "n": 1500, "rotate": 5 + i * 53, "chains": True, "min_ops": 3} for i in range(4)]
 
 
 def run_shard(spec, seed, tier) -> Acc:
@@ -277,7 +279,16 @@ def run_shard(spec, seed, tier) -> Acc:
     if spec["kind"] == "__corpus__":
         return core.corpus_shard(sys.modules[__name__], acc)
     is_known, _ = core.known_matcher(ID)
-    core.hyp_run(case_strategy({"rotate": spec.get("rotate", 0), "store_mid": spec.get("store_mid", 12)}), check_case, seed=seed, max_examples=spec["n"], acc=acc,
+    opts = {"rotate": spec.get("rotate", 0), "store_mid": spec.get("store_mid", 12)}
+    if spec.get("chains"):
+        # chains of single-input elementwise operations ending in operations that read a stream of blocks (reductions, scans),
+        # under the optimizers that fuse linear chains step by step (the legacy optimizer fuses a fused operation again)
+        from vp.ir import OPS
+
+        opts["only_ops"] = sorted(n for n, o in OPS.items() if ({"unary", "reduction", "scan"} & set(o.tags)) and "helper-array" not in o.tags) + ["pick"]
+        opts["optimizers"] = ["simple", "simple", "default", "fuse-all"]
+        opts.pop("store_mid")
+    core.hyp_run(case_strategy(opts, min_ops=spec.get("min_ops", 2)), check_case, seed=seed, max_examples=spec["n"], acc=acc,
                  budget_s=420 if tier == "quick" else 3000, shrink=(tier == "thorough"), is_known=is_known)
     return acc
 
